@@ -1,15 +1,15 @@
 (* C09 - translator obligations: ALIGN and SUBALIGN texts *)
-From Slinky Require Import Model.Types Model.Generated Model.Style Model.Script Proofs.Tables.
+From Slinky Require Import Model.Types Model.Generated Model.Style Model.Script Proofs.TablesC09.
 Local Open Scope string_scope.
 
 Theorem C09_tables_align : forall ind sym n,
-  render_stmt ind (SAlign sym n) = [indent_str ind ++ fmt (tpl fmt_sb 5) [sym; sym; hex_of_N n]].
+  render_stmt ind (SAlign sym n) = [indent_str ind ++ fmt t_sb_align_symbol_0 [sym; sym; hex_of_N n]].
 Proof. exact sb_align. Qed.
 
 Theorem C09_tables_header_single : forall sect noload sub,
   render_header sect None None noload sub =
-  fmt (tpl fmt_lw 25) [sect; if noload then " (NOLOAD)" else ""] ++
-  match sub with Some n => fmt (tpl fmt_lw 26) [dec_of_N n] | None => "" end.
+  fmt t_lw_write_single_segment_0 [sect; if noload then " (NOLOAD)" else ""] ++
+  match sub with Some n => fmt t_lw_write_single_segment_1 [dec_of_N n] | None => "" end.
 Proof. exact lw_header_single. Qed.
 
 Print Assumptions C09_tables_align.
